@@ -44,6 +44,41 @@ def _pv(s, i):
                 return tuple(items), i + 2
             assert s[i] == ',', (s, i)
             i += 1
+    if s[i] == '[':                      # record [a |-> v, ...]
+        i += 1
+        rec = {}
+        i = _ws(s, i)
+        if s[i] == ']':
+            return rec, i + 1
+        while True:
+            i = _ws(s, i)
+            j = i
+            while s[j].isalnum() or s[j] == '_':
+                j += 1
+            key = s[i:j]
+            i = _ws(s, j)
+            assert s.startswith('|->', i), (s[i:i + 20], i)
+            v, i = _pv(s, i + 3)
+            rec[key] = v
+            i = _ws(s, i)
+            if s[i] == ']':
+                return rec, i + 1
+            assert s[i] == ',', (s[i:i + 20], i)
+            i += 1
+    if s[i] == '(':                      # function (k :> v @@ k :> v ...)
+        i += 1
+        fn = {}
+        while True:
+            k, i = _pv(s, i)
+            i = _ws(s, i)
+            assert s.startswith(':>', i), (s[i:i + 20], i)
+            v, i = _pv(s, i + 2)
+            fn[k] = v
+            i = _ws(s, i)
+            if s[i] == ')':
+                return fn, i + 1
+            assert s.startswith('@@', i), (s[i:i + 20], i)
+            i += 2
     if s[i] == '{':
         i += 1
         items = []
@@ -70,13 +105,72 @@ def _pv(s, i):
     return int(m.group(0)), m.end()
 
 
+POS = {}      # node id -> byte offset of its line in the dump (filled by read_graph)
+
+
+def _as_map(x):
+    """A TLA+ function with domain 1..n prints as a sequence."""
+    if isinstance(x, tuple):
+        return {i + 1: v for i, v in enumerate(x)}
+    return dict(x)
+
+
+def model_state(path, node):
+    """The full model state (m, h) of one node of the dump, parsed on demand."""
+    with open(path, 'rb') as fb:
+        fb.seek(POS[node])
+        line = fb.readline().decode('utf8').rstrip('\n')
+    m = _NODE.match(line)
+    lab = m.group(2)
+    k = lab.find('",tooltip=')
+    if k >= 0:
+        lab = lab[:k]
+    lab = lab.replace('\\"', '"').replace('\\n', '\n').replace('\\\\', '\\')
+    out = {}
+    for part in re.split(r'(?:^|\n)/\\ ', lab):
+        part = part.strip()
+        if not part:
+            continue
+        name, _, val = part.partition(' = ')
+        if name in ('m', 'h'):
+            out[name] = parse_value(val)
+    return out
+
+
+def conformance(model, snap):
+    """Compare the model state with the projected state of the real manager.
+
+    Returns the list of fields that differ (empty = the transcribed
+    algorithms and the code reached the SAME tables, node numbers included)."""
+    mm = model['m']
+    bad = []
+    msucc = {n: tuple(t) for n, t in _as_map(mm['succ']).items() if t[0] >= 0}
+    rsucc = {i + 1: tuple(t) for i, t in enumerate(snap['succ']) if t[0] >= 0}
+    if msucc != rsucc:
+        bad.append('succ')
+    mref = {n: c for n, c in _as_map(mm['ref']).items() if n in msucc}
+    rref = {i + 1: c for i, c in enumerate(snap['ref']) if (i + 1) in rsucc}
+    if mref != rref:
+        bad.append('ref')
+    if list(mm['order']) != list(snap['order']):
+        bad.append('order')
+    if mm['minfree'] != snap['minfree']:
+        bad.append('minfree')
+    if snap.get('cache_read', True) and len(_as_map(mm['cache'])) != snap.get('cache_n', 0):
+        bad.append('cache_size')
+    return bad
+
+
 def read_graph(path):
     """Return (last: id -> value, edges: id -> [ids], roots)."""
     last = {}
     edges = collections.defaultdict(list)
-    with open(path) as f:
-        for line in f:
-            line = line.rstrip('\n')
+    POS.clear()
+    with open(path, 'rb') as fb:
+        off = 0
+        for raw in fb:
+            line = raw.decode('utf8').rstrip('\n')
+            here, off = off, off + len(raw)
             m = _EDGE.match(line)
             if m:
                 edges[m.group(1)].append(m.group(2))
@@ -88,6 +182,7 @@ def read_graph(path):
                 k = lab.rfind('last = ')
                 assert k >= 0, lab
                 last[m.group(1)] = parse_value(lab[k + 7:])
+                POS[m.group(1)] = here
     roots = [n for n, v in last.items() if v[0] in ('init', 'init2')]
     return last, edges, roots
 
@@ -132,8 +227,9 @@ def bfs_paths(last, edges, roots, all_transitions=False):
 class Replayer:
     """Execute BDDSpec actions on a real manager through a `Trace`."""
 
-    def __init__(self, tid, names, declared, seed=0, meta=None):
+    def __init__(self, tid, names, declared, seed=0, meta=None, witness=True):
         self.names = list(names)
+        self.witness = witness
         self.tr = Trace(tid, names, seed=seed, meta=meta)
         for nm in names[:declared]:
             self.tr.add_var(nm)
@@ -167,7 +263,7 @@ class Replayer:
         keys = tr.cache_keys() if op in (
             'gc', 'dropgc', 'swap', 'reorder', 'sift', 'undeclare') else None
         self._step(a)
-        if keys:
+        if keys and self.witness:
             tr.cache_witness(keys, k=2)
 
     def _step(self, a):
